@@ -220,9 +220,9 @@ def setTest (op : Op) (s : TSet) (c : TSel) (r : Res) : Bool :=
 def setRelSetPos (op : Op) (s : TSet) (t : TSet) (r : Res) : Bool :=
   match op with
   | .equals _ _ =>
-      -- every member of the one among the members of the other, both ways round (a set may hold a member twice)
-      decide (s.items.length = t.items.length) && s.items.all (fun a => relSetPos op a t r) &&
-        t.items.all (fun c => relSetPos op c s r)
+      -- every member of the one among the members of the other, both ways round (a set may hold a member twice: the
+      -- numbers of stored items are not compared)
+      s.items.all (fun a => relSetPos op a t r) && t.items.all (fun c => relSetPos op c s r)
   | _ =>
     match op.pick with
     | .every => s.items.all (fun a => relSetPos op a t r)
